@@ -2,6 +2,7 @@
    Line: "op;op;..." over handles h<id> (n = NULL):
      h3=newobj | h3=newarr | h4=newint 7 | h4=newstr 6162 | h4=newbool | h4=newdbl
      get h4 | put h3 | add h3 <hexkey> h4 | del h3 <hexkey>
+     addx h3 <hexkey> h4 <flags>   json_object_object_add_ex; flags: 1 = KEY_IS_NEW, 2 = CONSTANT_KEY
      aadd h5 h4 | aput h5 2 h4 | ains h5 1 h4 | adel h5 0 2
      setud h4 <tag> | setser h4 <tag> | clrud h4
      copy h6=h3 (shallow-copy function that installs callbacks) | copyd h6=h3 (NULL)
@@ -47,6 +48,9 @@ let parse_op (s : string) : op * z option =
   | ["get"; a] -> (OGet (hid1 a), None)
   | ["put"; a] -> (OPut (hid1 a), None)
   | ["add"; p; k; v] -> (OObjAdd (hid1 p, bytes_of_hex k, hid v), None)
+  | ["addx"; p; k; v; f] ->
+    let f = int_of_string f in
+    (OObjAddEx (hid1 p, bytes_of_hex k, hid v, f land 1 <> 0, f land 2 <> 0), None)
   | ["del"; p; k] -> (OObjDel (hid1 p, bytes_of_hex k), None)
   | ["aadd"; p; v] -> (OArrAdd (hid1 p, hid v), None)
   | ["aput"; p; i; v] -> (OArrPut (hid1 p, z_of_string i, hid v), None)
@@ -79,7 +83,12 @@ let rec dump h depth (v : z option) =
       (match n.nkind with
        | KScalar -> head
        | KArray -> head ^ "[" ^ String.concat "," (List.map (fun (_, c) -> dump h (depth + 1) c) n.children) ^ "]"
-       | KObject -> head ^ "{" ^ String.concat "," (List.map (fun (k, c) -> hex_of_bytes k ^ "=" ^ dump h (depth + 1) c) n.children) ^ "}")
+       | KObject ->
+         (* an entry whose key storage belongs to the caller (k_is_constant) is printed with '*' *)
+         let kstr k = match k with
+           | x :: t when int_of_z x = -1 -> "*" ^ hex_of_bytes t
+           | _ -> hex_of_bytes k in
+         head ^ "{" ^ String.concat "," (List.map (fun (k, c) -> kstr k ^ "=" ^ dump h (depth + 1) c) n.children) ^ "}")
 
 (* ---- json_patch operations: json_patch.c implements add/replace/copy as json_object_deep_copy
    (default shallow copy) of the value + json_pointer_set with an insert callback, remove as
